@@ -347,3 +347,82 @@ Theorem gej_double_correct : forall inf x0 x1 x2 x3 x4 y0 y1 y2 y3 y4 z0 z1 z2 z
       cong (8 * val5 ry0 ry1 ry2 ry3 ry4) (- 27 * (X * X * X * X * X * X) + 36 * (X * X * X * (Y * Y)) - 8 * (Y * Y * Y * Y))).
 Proof. exact Kernel.GejDouble.gej_double_correct. Qed.
 Print Assumptions gej_double_correct.
+
+Require Import Kernel.GroupSmall Gen.ge_set_gej_zinv Gen.gej_rescale.
+
+Theorem ge_set_gej_zinv_correct : forall inf zi0 zi1 zi2 zi3 zi4 x0 x1 x2 x3 x4 y0 y1 y2 y3 y4,
+  lim 8 zi0 zi1 zi2 zi3 zi4 -> lim 8 x0 x1 x2 x3 x4 -> lim 8 y0 y1 y2 y3 y4 ->
+  ge_set_gej_zinv_k inf zi0 zi1 zi2 zi3 zi4 x0 x1 x2 x3 x4 y0 y1 y2 y3 y4 (fun rinf rx0 rx1 rx2 rx3 rx4 ry0 ry1 ry2 ry3 ry4 =>
+    let X := val5 x0 x1 x2 x3 x4 in let Y := val5 y0 y1 y2 y3 y4 in let ZI := val5 zi0 zi1 zi2 zi3 zi4 in
+    rinf = inf /\ lim 1 rx0 rx1 rx2 rx3 rx4 /\ lim 1 ry0 ry1 ry2 ry3 ry4 /\
+    cong (val5 rx0 rx1 rx2 rx3 rx4) (X * (ZI * ZI)) /\ cong (val5 ry0 ry1 ry2 ry3 ry4) (Y * (ZI * ZI * ZI))).
+Proof. exact Kernel.GroupSmall.ge_set_gej_zinv_correct. Qed.
+Print Assumptions ge_set_gej_zinv_correct.
+
+Theorem gej_rescale_correct : forall s0 s1 s2 s3 s4 x0 x1 x2 x3 x4 y0 y1 y2 y3 y4 z0 z1 z2 z3 z4,
+  lim 8 s0 s1 s2 s3 s4 -> lim 8 x0 x1 x2 x3 x4 -> lim 8 y0 y1 y2 y3 y4 -> lim 8 z0 z1 z2 z3 z4 ->
+  gej_rescale_k s0 s1 s2 s3 s4 x0 x1 x2 x3 x4 y0 y1 y2 y3 y4 z0 z1 z2 z3 z4 (fun rx0 rx1 rx2 rx3 rx4 ry0 ry1 ry2 ry3 ry4 rz0 rz1 rz2 rz3 rz4 =>
+    let X := val5 x0 x1 x2 x3 x4 in let Y := val5 y0 y1 y2 y3 y4 in let Z := val5 z0 z1 z2 z3 z4 in let S := val5 s0 s1 s2 s3 s4 in
+    lim 1 rx0 rx1 rx2 rx3 rx4 /\ lim 1 ry0 ry1 ry2 ry3 ry4 /\ lim 1 rz0 rz1 rz2 rz3 rz4 /\
+    cong (val5 rx0 rx1 rx2 rx3 rx4) (X * (S * S)) /\ cong (val5 ry0 ry1 ry2 ry3 ry4) (Y * (S * S) * S) /\ cong (val5 rz0 rz1 rz2 rz3 rz4) (Z * S)).
+Proof. exact Kernel.GroupSmall.gej_rescale_correct. Qed.
+Print Assumptions gej_rescale_correct.
+
+(* ---- the same for the 32-bit-limb configuration: 10x26 field primitives in WP form and point doubling over them ---- *)
+Require Import Kernel.Field10x26Wp Kernel.GejDouble32 Gen.fe10x26_add Gen.fe10x26_negate Gen.fe10x26_half Gen.fe10x26_mul_int Gen.gej_double32.
+
+Theorem fe10x26_add_wp : forall r0 r1 r2 r3 r4 r5 r6 r7 r8 r9 a0 a1 a2 a3 a4 a5 a6 a7 a8 a9 (Q : Z -> Z -> Z -> Z -> Z -> Z -> Z -> Z -> Z -> Z -> Prop),
+  0 <= r0 -> 0 <= r1 -> 0 <= r2 -> 0 <= r3 -> 0 <= r4 -> 0 <= r5 -> 0 <= r6 -> 0 <= r7 -> 0 <= r8 -> 0 <= r9 ->
+  0 <= a0 -> 0 <= a1 -> 0 <= a2 -> 0 <= a3 -> 0 <= a4 -> 0 <= a5 -> 0 <= a6 -> 0 <= a7 -> 0 <= a8 -> 0 <= a9 ->
+  r0 + a0 < 2^32 -> r1 + a1 < 2^32 -> r2 + a2 < 2^32 -> r3 + a3 < 2^32 -> r4 + a4 < 2^32 -> r5 + a5 < 2^32 -> r6 + a6 < 2^32 -> r7 + a7 < 2^32 -> r8 + a8 < 2^32 -> r9 + a9 < 2^32 ->
+  (forall s0 s1 s2 s3 s4 s5 s6 s7 s8 s9, s0 = r0 + a0 -> s1 = r1 + a1 -> s2 = r2 + a2 -> s3 = r3 + a3 -> s4 = r4 + a4 -> s5 = r5 + a5 -> s6 = r6 + a6 -> s7 = r7 + a7 -> s8 = r8 + a8 -> s9 = r9 + a9 ->
+     val10 s0 s1 s2 s3 s4 s5 s6 s7 s8 s9 = val10 r0 r1 r2 r3 r4 r5 r6 r7 r8 r9 + val10 a0 a1 a2 a3 a4 a5 a6 a7 a8 a9 -> Q s0 s1 s2 s3 s4 s5 s6 s7 s8 s9) ->
+  fe10x26_add_k r0 r1 r2 r3 r4 r5 r6 r7 r8 r9 a0 a1 a2 a3 a4 a5 a6 a7 a8 a9 Q.
+Proof. exact Kernel.Field10x26Wp.fe10x26_add_wp. Qed.
+Print Assumptions fe10x26_add_wp.
+
+Theorem fe10x26_mul_int_wp : forall r0 r1 r2 r3 r4 r5 r6 r7 r8 r9 a (Q : Z -> Z -> Z -> Z -> Z -> Z -> Z -> Z -> Z -> Z -> Prop),
+  0 <= a < 2^31 -> 0 <= r0 -> 0 <= r1 -> 0 <= r2 -> 0 <= r3 -> 0 <= r4 -> 0 <= r5 -> 0 <= r6 -> 0 <= r7 -> 0 <= r8 -> 0 <= r9 ->
+  r0 * a < 2^32 -> r1 * a < 2^32 -> r2 * a < 2^32 -> r3 * a < 2^32 -> r4 * a < 2^32 -> r5 * a < 2^32 -> r6 * a < 2^32 -> r7 * a < 2^32 -> r8 * a < 2^32 -> r9 * a < 2^32 ->
+  (forall s0 s1 s2 s3 s4 s5 s6 s7 s8 s9, s0 = r0 * a -> s1 = r1 * a -> s2 = r2 * a -> s3 = r3 * a -> s4 = r4 * a -> s5 = r5 * a -> s6 = r6 * a -> s7 = r7 * a -> s8 = r8 * a -> s9 = r9 * a ->
+     val10 s0 s1 s2 s3 s4 s5 s6 s7 s8 s9 = val10 r0 r1 r2 r3 r4 r5 r6 r7 r8 r9 * a -> Q s0 s1 s2 s3 s4 s5 s6 s7 s8 s9) ->
+  fe10x26_mul_int_k r0 r1 r2 r3 r4 r5 r6 r7 r8 r9 a Q.
+Proof. exact Kernel.Field10x26Wp.fe10x26_mul_int_wp. Qed.
+Print Assumptions fe10x26_mul_int_wp.
+
+Theorem fe10x26_negate_wp : forall a0 a1 a2 a3 a4 a5 a6 a7 a8 a9 m (Q : Z -> Z -> Z -> Z -> Z -> Z -> Z -> Z -> Z -> Z -> Prop),
+  0 <= m <= 31 ->
+  0 <= a0 <= 2 * (m + 1) * 67107887 -> 0 <= a1 <= 2 * (m + 1) * 67108799 -> 0 <= a2 <= 2 * (m + 1) * 67108863 -> 0 <= a3 <= 2 * (m + 1) * 67108863 ->
+  0 <= a4 <= 2 * (m + 1) * 67108863 -> 0 <= a5 <= 2 * (m + 1) * 67108863 -> 0 <= a6 <= 2 * (m + 1) * 67108863 -> 0 <= a7 <= 2 * (m + 1) * 67108863 ->
+  0 <= a8 <= 2 * (m + 1) * 67108863 -> 0 <= a9 <= 2 * (m + 1) * 4194303 ->
+  (forall r0 r1 r2 r3 r4 r5 r6 r7 r8 r9,
+     r0 = 2 * (m + 1) * 67107887 - a0 -> r1 = 2 * (m + 1) * 67108799 - a1 -> r2 = 2 * (m + 1) * 67108863 - a2 -> r3 = 2 * (m + 1) * 67108863 - a3 ->
+     r4 = 2 * (m + 1) * 67108863 - a4 -> r5 = 2 * (m + 1) * 67108863 - a5 -> r6 = 2 * (m + 1) * 67108863 - a6 -> r7 = 2 * (m + 1) * 67108863 - a7 ->
+     r8 = 2 * (m + 1) * 67108863 - a8 -> r9 = 2 * (m + 1) * 4194303 - a9 ->
+     val10 r0 r1 r2 r3 r4 r5 r6 r7 r8 r9 = 2 * (m + 1) * P256 - val10 a0 a1 a2 a3 a4 a5 a6 a7 a8 a9 -> Q r0 r1 r2 r3 r4 r5 r6 r7 r8 r9) ->
+  fe10x26_negate_k a0 a1 a2 a3 a4 a5 a6 a7 a8 a9 m Q.
+Proof. exact Kernel.Field10x26Wp.fe10x26_negate_wp. Qed.
+Print Assumptions fe10x26_negate_wp.
+
+Theorem fe10x26_half_wp : forall t0 t1 t2 t3 t4 t5 t6 t7 t8 t9 (Q : Z -> Z -> Z -> Z -> Z -> Z -> Z -> Z -> Z -> Z -> Prop),
+  0 <= t0 < 2^31 -> 0 <= t1 < 2^31 -> 0 <= t2 < 2^31 -> 0 <= t3 < 2^31 -> 0 <= t4 < 2^31 -> 0 <= t5 < 2^31 -> 0 <= t6 < 2^31 -> 0 <= t7 < 2^31 -> 0 <= t8 < 2^31 -> 0 <= t9 < 2^27 ->
+  (forall r0 r1 r2 r3 r4 r5 r6 r7 r8 r9,
+    (0 <= 2 * r0 <= t0 + 2^27 /\ 0 <= 2 * r1 <= t1 + 2^27 /\ 0 <= 2 * r2 <= t2 + 2^27 /\ 0 <= 2 * r3 <= t3 + 2^27 /\ 0 <= 2 * r4 <= t4 + 2^27 /\
+     0 <= 2 * r5 <= t5 + 2^27 /\ 0 <= 2 * r6 <= t6 + 2^27 /\ 0 <= 2 * r7 <= t7 + 2^27 /\ 0 <= 2 * r8 <= t8 + 2^27 /\ 0 <= 2 * r9 <= t9 + 2^22) ->
+    2 * val10 r0 r1 r2 r3 r4 r5 r6 r7 r8 r9 = val10 t0 t1 t2 t3 t4 t5 t6 t7 t8 t9 + (t0 mod 2) * P256 -> Q r0 r1 r2 r3 r4 r5 r6 r7 r8 r9) ->
+  fe10x26_half_k t0 t1 t2 t3 t4 t5 t6 t7 t8 t9 Q.
+Proof. exact Kernel.Field10x26Wp.fe10x26_half_wp. Qed.
+Print Assumptions fe10x26_half_wp.
+
+Theorem gej_double32_correct : forall inf x0 x1 x2 x3 x4 x5 x6 x7 x8 x9 y0 y1 y2 y3 y4 y5 y6 y7 y8 y9 z0 z1 z2 z3 z4 z5 z6 z7 z8 z9,
+  lim32 8 x0 x1 x2 x3 x4 x5 x6 x7 x8 x9 -> lim32 8 y0 y1 y2 y3 y4 y5 y6 y7 y8 y9 -> lim32 8 z0 z1 z2 z3 z4 z5 z6 z7 z8 z9 ->
+  gej_double32_k inf x0 x1 x2 x3 x4 x5 x6 x7 x8 x9 y0 y1 y2 y3 y4 y5 y6 y7 y8 y9 z0 z1 z2 z3 z4 z5 z6 z7 z8 z9
+    (fun rinf rx0 rx1 rx2 rx3 rx4 rx5 rx6 rx7 rx8 rx9 ry0 ry1 ry2 ry3 ry4 ry5 ry6 ry7 ry8 ry9 rz0 rz1 rz2 rz3 rz4 rz5 rz6 rz7 rz8 rz9 =>
+      let X := val10 x0 x1 x2 x3 x4 x5 x6 x7 x8 x9 in let Y := val10 y0 y1 y2 y3 y4 y5 y6 y7 y8 y9 in let Z := val10 z0 z1 z2 z3 z4 z5 z6 z7 z8 z9 in
+      rinf = inf /\
+      (lim32 3 rx0 rx1 rx2 rx3 rx4 rx5 rx6 rx7 rx8 rx9 /\ mag32 3 ry0 ry1 ry2 ry3 ry4 ry5 ry6 ry7 ry8 ry9 /\ lim32 1 rz0 rz1 rz2 rz3 rz4 rz5 rz6 rz7 rz8 rz9) /\
+      cong (val10 rz0 rz1 rz2 rz3 rz4 rz5 rz6 rz7 rz8 rz9) (Y * Z) /\
+      cong (4 * val10 rx0 rx1 rx2 rx3 rx4 rx5 rx6 rx7 rx8 rx9) (9 * (X * X * X * X) - 8 * (X * (Y * Y))) /\
+      cong (8 * val10 ry0 ry1 ry2 ry3 ry4 ry5 ry6 ry7 ry8 ry9) (- 27 * (X * X * X * X * X * X) + 36 * (X * X * X * (Y * Y)) - 8 * (Y * Y * Y * Y))).
+Proof. exact Kernel.GejDouble32.gej_double32_correct. Qed.
+Print Assumptions gej_double32_correct.
